@@ -154,15 +154,18 @@ def appendRecv (r : Recv) (b : Aid) (x : Aid × Rat) : Except GErr Recv :=
   | none => .error .keyError
   | some l => .ok (dictSet r b (l ++ [x]))
 
+/-- one pass of `update_receipients`: `self.receiving_state[agent.id].append((from_agent.id, from_agent.message))` -/
+def recip1 (msgs : List (Option Rat)) (sender : Aid) (r : Recv) (b : Aid) : Except GErr Recv :=
+  match r.lookup b with
+  | none => .error .keyError
+  | some _ =>
+    match msgs.getD sender none with
+    | none => .error .other                                            -- `from_agent.message` does not exist
+    | some m => appendRecv r b (sender, m)
+
 /-- `update_receipients(from_agent, to_agents)` -/
 def updateRecipients (msgs : List (Option Rat)) (r : Recv) (sender : Aid) (tos : List Aid) : Except GErr Recv :=
-  foldE (fun r b =>
-    match r.lookup b with
-    | none => .error .keyError
-    | some _ =>
-      match msgs.getD sender none with
-      | none => .error .other                                          -- `from_agent.message` does not exist
-      | some m => appendRecv r b (sender, m)) r tos
+  foldE (recip1 msgs sender) r tos
 
 /-- one pass of the first loop of `step` -/
 def bcast1 (cfg : Cfg) (w : World) (msgs : List (Option Rat)) (r : Recv) (x : Aid × Act) : Except GErr Recv :=
